@@ -190,6 +190,10 @@ func TestVerifC15(t *testing.T) {
 			// successors
 			if term, ok := obj.Interface().(Terminator); ok && vr.skip == nil {
 				verifC15Succs(term, obj.Elem(), desc, fail)
+				// a second object of the same shape: branch targets that coincide, and targets in the printed text
+				obj2 := reflect.New(st)
+				(&verifC15Filler{}).fill(obj2.Elem(), vr.nelem, vr.skip, "")
+				verifC15SuccsShared(obj2.Interface().(Terminator), obj2.Elem(), desc, fail)
 			}
 		}
 	}
@@ -304,4 +308,71 @@ func verifC15Succs(term Terminator, v reflect.Value, desc string, fail func(stri
 		}
 	}
 	check("after-slot-write")
+}
+
+
+// verifC15SuccsShared: several branch targets may be the same block -- Succs() still lists one entry per target
+// slot, in slot order --, and the printed terminator shows what the target slots hold (also after Succs() has
+// been called and a target has been rewritten through its slot).
+func verifC15SuccsShared(term Terminator, v reflect.Value, desc string, fail func(string, ...interface{})) {
+	switch term.(type) {
+	case *TermRet, *TermResume, *TermUnreachable:
+		return
+	}
+	shared := NewBlock("shared_target")
+	n := 0
+	var first *value.Value
+	for _, op := range term.Operands() {
+		name := verifC15SlotName(v, op)
+		if i := strings.LastIndex(name, "."); i >= 0 {
+			name = name[i+1:]
+		}
+		if i := strings.Index(name, "["); i >= 0 {
+			name = name[:i]
+		}
+		if !verifC15IsSucc(name) {
+			continue
+		}
+		if _, ok := (*op).(*Block); ok {
+			*op = shared
+			n++
+			if first == nil {
+				first = op
+			}
+		}
+	}
+	if n == 0 {
+		return
+	}
+	var got []*Block
+	func() {
+		defer func() { recover() }()
+		got = term.Succs()
+	}()
+	if len(got) != n {
+		fail("succs %s (shared-targets): %d target slots hold one and the same block, Succs() lists %d entries", desc, n, len(got))
+		return
+	}
+	for i := range got {
+		if got[i] != shared {
+			fail("succs %s (shared-targets): Succs()[%d] is not the block in the target slots", desc, i)
+			return
+		}
+	}
+	// the printed text shows the target slots
+	text := func() (s string, ok bool) {
+		defer func() {
+			if recover() != nil {
+				ok = false
+			}
+		}()
+		return term.LLString(), true
+	}
+	if _, ok := text(); !ok {
+		return
+	}
+	*first = NewBlock("rewritten_target")
+	if s, ok := text(); ok && !strings.Contains(s, "%rewritten_target") {
+		fail("printed %s: a branch target rewritten through its operand slot does not show in LLString(): %s", desc, s)
+	}
 }
